@@ -270,6 +270,7 @@ class FakeSelector:
     registered cannot be registered again, and a closed descriptor is never reported ready"""
     def __init__(self):
         self.map = {}
+        self.closed = False
 
     @staticmethod
     def _fd(fileobj):
@@ -302,8 +303,20 @@ class FakeSelector:
 
     def close(self):
         self.map = {}
+        self.closed = True
 
     def select(self, timeout=None):
+        # (the checks run with POLLTIMEOUT = 0 and drive the servers' events() themselves; a positive timeout is used when the
+        # real request loop runs in a scheduler thread: wait, in virtual time, until something is ready)
+        if timeout is not None and timeout > 0 and S.CUR is not None and S.CUR.controlled():
+            if self.closed:
+                raise ValueError("I/O operation on closed epoll object")      # as the real selectors do
+            S.CUR.yield_point(lambda: self.closed or bool(self._ready()), timeout=timeout)
+            if self.closed:
+                raise ValueError("I/O operation on closed epoll object")
+        return self._ready()
+
+    def _ready(self):
         out = []
         for fd, key in list(self.map.items()):
             f = key.fileobj
